@@ -213,7 +213,7 @@ def _work(args):
     d = gen_for(pid, index, seed, tier)
     t1 = time.time()
     try:
-        r = eval_design(d, pid, n_random, max_patterns=(8 if tier == "quick" else None))
+        r = eval_design(d, pid, n_random, max_patterns=(8 if tier == "quick" else 24))
     except Exception as e:  # noqa: BLE001
         import traceback
 
@@ -400,7 +400,7 @@ def replay_witness_for(pid: str):
 
 
 # ------------------------------------------------------------------------------------ main entry
-def run_core(ctx: Check, pid: str, n_quick: int = 110, n_thorough: int = 2400):
+def run_core(ctx: Check, pid: str, n_quick: int = 110, n_thorough: int = 1600):
     ctx.rule = "cases = (abstract design, input valuation); non-trivial = " + RULES[pid]
     props = LEAN / "TxV" / "Props" / f"{pid}.lean"
     tm0 = time.time()
@@ -432,7 +432,7 @@ def run_core(ctx: Check, pid: str, n_quick: int = 110, n_thorough: int = 2400):
     n = ctx.pick(n_quick, n_thorough)
     if os.environ.get("VERIF_CORE_N"):  # for experiments (mutation runs); not used by the normal check
         n = int(os.environ["VERIF_CORE_N"])
-    n_random = ctx.pick(24, 64)
+    n_random = ctx.pick(24, 48)
     procs = min(4, os.cpu_count() or 1) if ctx.quick else min(16, os.cpu_count() or 1)
     if os.environ.get("VERIF_PROCS"):
         procs = int(os.environ["VERIF_PROCS"])
